@@ -32,7 +32,8 @@ def build_system_matrix(net, branch_pit, node_pit, heat_mode):
     :return: system_matrix, load_vector
     :rtype: system_matrix - scipy.sparse.csr.csr_matrix, load_vector - numpy.ndarray
     """
-    update_option = get_net_option(net, "only_update_hydraulic_matrix")
+    # the option (and the stored sparsity pattern) refers to the hydraulic system only
+    update_option = get_net_option(net, "only_update_hydraulic_matrix") and not heat_mode
     update_only = update_option and "hydraulic_data_sorting" in net["_internal_data"] \
                   and "hydraulic_matrix" in net["_internal_data"]
     use_numba = get_net_option(net, "use_numba")
